@@ -14,7 +14,7 @@ from ..core import Ctx, RuleReport, rule
 from ..src import AnalysisError, FuncInfo, norm, try_fold, walk_local
 from ..tyeng import has
 from .lexical import single_def
-from ..resolve import ctor_param_unused
+from ..resolve import ctor_param_unused, facts_ex
 
 
 # ---------------------------------------------------------------------------------------------
@@ -552,6 +552,7 @@ def r57(ctx: Ctx) -> RuleReport:
 
 @rule('R58', 'interpretation tells edges from attributes by the variables of ALL nodes of the tree, the top included')
 def r58(ctx: Ctx) -> RuleReport:
+    from ..resolve import facts_ex
     rep = RuleReport('R58', r58.title, floor=2)
     fi = ctx.repo.func('penman.layout', 'interpret')
     tp = fi.positional[0]
@@ -609,8 +610,28 @@ def r58(ctx: Ctx) -> RuleReport:
                     rgood = True
                 if isinstance(g.target, ast.Name) and norm(comp.elt) == f'{g.target.id}[0]':
                     rgood = True
+        bad_index = None
+        if isinstance(comp, (ast.SetComp, ast.GeneratorExp, ast.ListComp)) and len(comp.generators) == 1 and norm(comp.generators[0].iter) == f'{rtp}.nodes()' \
+                and isinstance(comp.generators[0].target, ast.Name) and isinstance(comp.elt, ast.Subscript) and norm(comp.elt.value) == comp.generators[0].target.id \
+                and isinstance(comp.elt.slice, ast.Constant) and comp.elt.slice.value != 0:
+            bad_index = comp.elt.slice.value
         if rgood:
             rep.ok(rkey, rf.loc(n), norm(n.value)[:70])
+            # the set is consulted exactly when the caller asked for attributes first
+            af = next((p_ for p_ in rf.params if p_ == 'attributes_first'), None)
+            if af:
+                orig = next((x for x in walk_local(rf.node) if isinstance(x, ast.Assign) and x.lineno == n.lineno), n)
+                fx = facts_ex(ctx, rf, orig) if not isinstance(orig.value, ast.IfExp) else {(norm(orig.value.test), orig.value.body is n.value)}
+                k4 = 'penman.layout:rearrange: the variable set is used exactly when attributes_first is true'
+                if (af, True) in fx:
+                    rep.ok(k4, rf.loc(orig))
+                elif (af, False) in fx:
+                    rep.violation(k4, rf.loc(orig), f'the set of node variables is built when `{af}` is false: the flag works the wrong way round (attributes are put first by default and not when asked for)')
+                else:
+                    rep.violation(k4, rf.loc(orig), f'whether the set of node variables is built does not depend on `{af}` (guards: {sorted(fx) or "none"}): attributes are put in front of the edges always or never, '
+                                  f'whatever the caller asks for')
+        elif bad_index is not None:
+            rep.violation(rkey, rf.loc(n), f'`{norm(n.value)[:60]}` takes element {bad_index} of every node (its branch list), not its variable: no branch target is ever found in the set')
         elif '.walk()' in norm(n.value):
             rep.violation(rkey, rf.loc(n), f'`{norm(n.value)[:80]}` collects variables from the branches of the tree: the top node is nobody\'s branch, so a '
                           f're-entrant reference to the top counts as an attribute and is sorted in front of the edges')
@@ -2026,4 +2047,110 @@ def r88(ctx: Ctx) -> RuleReport:
             mdx = expand(ctx, fi, md, call)
             good = isinstance(mdx, ast.Attribute) and mdx.attr == 'metadata' and isinstance(mdx.value, ast.Name) and mdx.value.id in holders
             rep.add(key, fi.loc(call), 'ok' if good else 'undecided', norm(md))
+    return rep
+
+
+# ---------------------------------------------------------------------------------------------
+@rule('R90', 'a branch target, which is either an atom (a string) or a nested node (a tuple), is only taken apart after the test that tells the two apart')
+def r90(ctx: Ctx) -> RuleReport:
+    rep = RuleReport('R90', r90.title, floor=2)
+    n = 0
+    for fi in ctx.repo.all_functions():
+        if fi.module.name not in ('penman.layout', 'penman.tree', 'penman._format', 'penman.transform', 'penman._parse'):
+            continue
+        cfg = IN = pm = None
+        for x in walk_local(fi.node):
+            base = None
+            if isinstance(x, ast.Subscript) and isinstance(x.ctx, ast.Load) and isinstance(x.value, ast.Name) and isinstance(x.slice, ast.Constant) \
+                    and isinstance(x.slice.value, int):
+                base = x.value
+            if base is None:
+                continue
+            t = ctx.types.type_of(fi, base)
+            kinds = {a[0] for a in t}
+            if not (kinds & {'Atom', 'Var', 'Const', 'str'} and kinds & {'Node', 'tuple'}):
+                continue
+            n += 1
+            if cfg is None:
+                cfg = CFG(fi.node)
+                IN = cond_facts(cfg)
+                pm = ctx.repo.parent_map(fi.node)
+            try:
+                fx = facts_at(cfg, IN, pm, x)
+            except Exception:
+                fx = set()
+            b = base.id
+            sure = {(f'is_atomic({b})', False), (f'tree.is_atomic({b})', False), (f'isinstance({b}, tuple)', True), (f'isinstance({b}, str)', False)}
+            key = f'{fi.module.name}:{fi.qualname}: `{norm(x)[:40]}` is evaluated only for a nested node'
+            if fx & sure:
+                rep.ok(key, fi.loc(x))
+            else:
+                atomic = {(f'is_atomic({b})', True), (f'tree.is_atomic({b})', True), (f'isinstance({b}, str)', True)}
+                if fx & atomic:
+                    rep.violation(key, fi.loc(x), f'`{norm(x)[:40]}` is evaluated where `{b}` is known to be an atom: it yields one character of the string (or fails to unpack), '
+                                  f'which is then used as a variable or as a branch list')
+                else:
+                    rep.violation(key, fi.loc(x), f'`{b}` may be an atom (a string) here - no test tells it apart from a nested node on this path - and `{norm(x)[:40]}` then yields one '
+                                  f'character of the string instead of the variable of a node')
+    rep.analysed['subscripts_of_atom_or_node'] = n
+    return rep
+
+
+# ---------------------------------------------------------------------------------------------
+@rule('R89', 'the public callables keep their documented parameters: same names, same order, same default values')
+def r89(ctx: Ctx) -> RuleReport:
+    import json as _json
+    from pathlib import Path as _Path
+    rep = RuleReport('R89', r89.title, floor=40)
+    spec = _json.loads((_Path(__file__).resolve().parent.parent.parent / 'spec' / 'signatures.json').read_text())['signatures']
+    for fq, want in sorted(spec.items()):
+        mod, qn = fq.split(':')
+        private = qn.split('.')[-1].startswith('_') and not qn.endswith('__init__')
+        try:
+            fi = ctx.repo.func(mod, qn)
+        except Exception:
+            if not private:
+                rep.undecided(f'{fq}: exists', 'penman/', 'documented callable not found under this name')
+            continue
+        a = fi.node.args
+        pos = a.posonlyargs + a.args
+        dfl = [None] * (len(pos) - len(a.defaults)) + list(a.defaults)
+        got = [(p.arg, dv) for p, dv in zip(pos, dfl)] + [(p.arg, dv) for p, dv in zip(a.kwonlyargs, a.kw_defaults)]
+        gotd = dict(got)
+        key = f'{fq}: parameters and defaults as documented'
+        problems = []
+        names_got = [n for n, _ in got]
+        names_want = [n for n, _ in want]
+        # order of the documented positional parameters
+        common = [n for n in names_got if n in names_want]
+        if common != [n for n in names_want if n in names_got] and not private:
+            problems.append(f'parameter order is {names_got}, documented {names_want}')
+        for n, dsrc in want:
+            if n not in gotd:
+                if not private:
+                    problems.append(f'parameter `{n}` is gone')
+                continue
+            dv = gotd[n]
+            if dsrc.startswith('<required'):
+                continue                        # gaining a default does not break a caller
+            if dv is None:
+                problems.append(f'`{n}` lost its default {dsrc}')
+                continue
+            okw, vw = try_fold(ast.parse(dsrc, mode='eval').body, {}, ctx.repo, fi.module)
+            okg, vg = try_fold(dv, {}, ctx.repo, fi.module)
+            same = (okw and okg and vw == vg and type(vw) is type(vg)) or norm(dv) == dsrc
+            if not same and okw and okg:
+                problems.append(f'default of `{n}` is {norm(dv)}, documented {dsrc}')
+            elif not same:
+                problems.append(None)
+        for n, dv in got:
+            if n not in names_want and dv is None and n not in ('self', 'cls') and not private:
+                problems.append(f'new required parameter `{n}`')
+        real = [p_ for p_ in problems if p_]
+        if real:
+            rep.violation(key, fi.loc(), '; '.join(real) + ': every caller that relies on the documented call (the command-line tool and the codec included) now gets different behaviour')
+        elif problems:
+            rep.undecided(key, fi.loc(), 'a default is written as an expression that does not fold to a constant')
+        else:
+            rep.ok(key, fi.loc())
     return rep
